@@ -16,6 +16,7 @@
 //!   stmts1 ...                          same; `continue` of the enclosing source loop becomes `return`
 //!   expr  <fnpath> ;; <pat> ;; <signature of emitted fn>
 //!   expr1 ...                           same; value wrapped in Some(..), `continue` of the enclosing loop becomes `return None`
+//!   closure <fnpath> ;; <pat> ;; <signature> ;; <call args>   closure expression applied: `(<closure>)(<args>)`
 //!   sql   <fnpath> ;; <pat> ;; <CONST_NAME>      string literal starting with pat -> pub const
 //! <fnpath> is `name` or `Type::name` or `Trait@Type::name`. A pattern matches a statement or
 //! expression whose whitespace-free token text starts with the whitespace-free pattern; `#n`
@@ -687,6 +688,32 @@ fn main() {
                 } else {
                     syn::parse2(quote!(pub #sig { #e })).unwrap()
                 };
+                out.items.push(Item::Fn(item));
+            }
+            "closure" => {
+                // a closure expression applied to arguments: `fn sig { (<closure>)(<args>) }`
+                let parts: Vec<&str> = rest.split(";;").map(|s| s.trim()).collect();
+                if parts.len() != 4 {
+                    die(&format!("{ctx}: closure needs 4 `;;`-separated parts (fn, pattern, signature, call args)"));
+                }
+                let block = find_fn_block(src, parts[0]);
+                let (pat, nth) = split_nth(parts[1]);
+                let mut f = ExprFinder { pat, nth, seen: 0, result: None };
+                f.visit_block(block);
+                let e = f.result.unwrap_or_else(|| die(&format!("{ctx}: closure pattern not found")));
+                if !matches!(e, Expr::Closure(_)) {
+                    die(&format!("{ctx}: matched expression is not a closure"));
+                }
+                let sig: syn::Signature =
+                    syn::parse_str(parts[2]).unwrap_or_else(|e| die(&format!("{ctx}: bad signature: {e}")));
+                let args: TokenStream =
+                    syn::parse_str(parts[3]).unwrap_or_else(|e| die(&format!("{ctx}: bad call args: {e}")));
+                // applied through a generic helper so that the closure's parameter types are inferred from
+                // the argument, as they are from `.filter(..)` / `.filter_map(..)` at the source site
+                let item: ItemFn = syn::parse2(quote!(pub #sig {
+                    fn __verif_apply<A, R, F: FnOnce(A) -> R>(f: F, a: A) -> R { f(a) }
+                    __verif_apply(#e, #args)
+                })).unwrap();
                 out.items.push(Item::Fn(item));
             }
             "sql" => {
